@@ -145,6 +145,12 @@ def cases(tier, seed):
                         yield ['feat', n, g, kind, ok, feat]
                     for nie in range(n):
                         yield ['feat', n, g, kind, 'none', feat, nie]
+                # two distinct layer objects with one name (a layer class
+                # instantiated twice) as bases of the layer that owns the tests
+                if kind == 'i' and n == 3 and not g[0] and not g[1] and sorted(g[2]) == [0, 1]:
+                    for ok in ('none', 'x', 'j2', 'rep', 'shuf'):
+                        yield ['feat', n, g, kind, ok, 'dupname']
+                    yield ['feat', n, g, kind, 'none', 'dupname', 2]
     # a world that is not small: 12 layers (a chain of 3 + 9 independent), 40
     # tests each, with one layer at a time that cannot be torn down
     for nie in (None, 0, 2, 6, 11):
@@ -315,6 +321,9 @@ def run_case(case):
                 L['ret'] = True
             elif feat == 'shadow':
                 L['shadow'] = True
+            elif feat == 'dupname':
+                if i < n - 1:
+                    L['rn'] = 'Srv'
             elif feat != 'lstr':
                 L['ish'] = feat
             if len(case) > 6 and case[6] == i:
@@ -322,6 +331,8 @@ def run_case(case):
         tests = [{'n': 't' + nm, 'l': nm, 's': 'pass', 'slowt': 75 if feat == 'slow' else None,
                   'lstr': feat == 'lstr'} for nm in names]
         tests.append({'n': 'tf', 'l': names[-1], 's': 'fail'})
+        if feat == 'dupname':
+            tests = [t for t in tests if t['l'] == names[-1]]
         spec = {'layers': layers, 'tests': tests}
         res = runrt.run_world(spec, list(OPTS[ok]), warnings='error' if ok == 'Werr' else None)
         sv = monitors.SpecView(spec)
